@@ -12,7 +12,7 @@ REQUIRED = ['getNBest_tie', 'getNBest_fits', 'getNBest_everyone', 'getNBest_leng
             'mem_aboveSorted', 'strictly_above_elected', 'level_all_elected', 'not_above_not_elected_in_tie',
             'below_never_elected', 'getNBest_strictMono_map', 'plurality_eq', 'quotaSelector_ok',
             'sorted_votes_desc_spec', 'sorted_votes_asc_spec', 'sorted_votes_level_sets_agree', 'elected_stays_elected']
-NAME_MODES = ['str', 'int0', 'empty0', 'person']
+NAME_MODES = ['str', 'int0', 'empty0', 'person', 'tuple']
 REQUIRED_COUNTERS = ['hash_alike_sequence', 'falsy_first_below_cut', 'sorted_votes', 'boundary_tie', 'level_fits', 'negative_value', 'all_elected', 'fraction', 'decimal', 'quota_selector']
 RULE = ('1-8 candidates, values from tie-forcing small sets (incl. negatives/zero), Fractions, Decimals and integers up to '
         '10^30; n from 1 to len+2; ops get_n_best, plurality, quota_selector(select/error). Non-trivial = at least two '
